@@ -180,6 +180,9 @@ def cases(tier, seed):
             # weights of the event classes arrive / burst / timer / release
             "w": rng.choice([[1, 1, 1, 1], [4, 2, 1, 1], [1, 0, 3, 3], [2, 2, 0.3, 2], [2, 2, 2, 0.3], [1, 4, 1, 1]]),
             "uniq": uniq, "cp": rng.choice([0, 0, 0.2, 0.5]), "cancel": rng.choice([0, 0, 0, 1, 2]),
+            # the embedding provider fails on one of the first model calls (every request must still complete - with an error
+            # when its own text was in that call)
+            "fail": [rng.randrange(3)] if rng.random() < 0.08 else [],
         }
 
 
@@ -233,6 +236,10 @@ class Violation(Exception):
     pass
 
 
+class ModelDown(Exception):
+    pass
+
+
 def setup_worker():
     import asyncio
     import contextvars
@@ -282,6 +289,9 @@ def setup_worker():
                 await fut
             elif not ctl.auto:
                 ctl.instant_calls += 1
+            if not ctl.auto and (k - ctl.build_calls) in ctl.fail_calls:
+                ctl.failed_docs += docs
+                raise ModelDown("the embedding provider failed on model call %d" % (k - ctl.build_calls))
             return [fm(self.model, d) for d in docs]
 
     register_embedding_provider(GatedModel)
@@ -385,6 +395,9 @@ class Ctl:
         self.sync_calls = 0
         self.batches = 0
         self.search_vecs = {}
+        self.fail_calls = set()  # model calls (counted after the index build) that end with an exception of the provider
+        self.failed_docs = []
+        self.build_calls = 0
 
     def instant_now(self):
         return self.instant_p > 0 and self.rng.random() < self.instant_p
@@ -596,6 +609,8 @@ def run_case(case):
             idx.embeddings_index = W["RecordingIndex"](idx._index, ctl)
             ctl.auto = False
         build_calls = len(ctl.calls)
+        ctl.build_calls = build_calls
+        ctl.fail_calls = set(case.get("fail") or [])
 
         async def req(i):
             W["req_var"].set(i)
@@ -673,6 +688,13 @@ def run_case(case):
                 if t.cancelled():
                     problem = ("request-cancelled-although-its-client-did-not-cancel", {"request": i, "kind": kinds[i], "text": texts[i], "client_cancelled": sorted(cancelled)})
                     break
+                if t.exception() is not None and ctl.failed_docs and not isinstance(t.exception(), steps.StepBudgetExceeded):
+                    if isinstance(t.exception(), ModelDown):
+                        # the provider failed on a model call of the batch this request belongs to (its own text may even have come
+                        # from the cache: the batch is computed as a whole): the request ends with the provider's error
+                        obs["requests_failed_with_their_model_call"] = obs.get("requests_failed_with_their_model_call", 0) + 1
+                        obs[{"batch": "vectors_compared", "list": "lists_compared", "search": "searches_compared"}[kinds[i]]] += 1  # accounted for
+                        continue
                 if t.exception() is not None:
                     e = t.exception()
                     key = "no-progress-spin" if isinstance(e, steps.StepBudgetExceeded) else "exception:%s" % type(e).__name__
